@@ -535,7 +535,7 @@ theorem gillespie_iterate_refines (o : Oracles) (S : CSim) (h : SimOK S) (e : En
         r.2 = false ∧ r.1.x = S.x ∧ r.1.smp.complete = true) ∧
       (a0 e (absState S.T.ns S.x) ≠ 0 →
         ∃ gs, gillespieStep e (absState S.T.ns S.x) (o.unif S.ucnt) (o.logInv (S.ucnt + 1)) = some gs ∧
-          r.1.dt = gs.dt ∧ Agree r.1.T r.1.x gs.x)) := by
+          r.1.dt = gs.dt ∧ Agree r.1.T r.1.x gs.x ∧ r.1.ucnt = S.ucnt + 2)) := by
   unfold CSim.iterate
   rw [if_neg (by simp [hnc]), hsc]
   simp only []
@@ -554,10 +554,10 @@ theorem gillespie_iterate_refines (o : Oracles) (S : CSim) (h : SimOK S) (e : En
   · rw [if_neg h0]
     refine Ok.bind (drawAndApplyEvent_val hR S.x h.x g' hg' _) (fun x' hx' => ?_)
     refine Ok.mono (finishStep_fields S h x' hx'.1 _ (.gil g') ⟨_, _, hR.layout, .gil g' hg'.ok⟩ _) (fun r hr => ?_)
-    obtain ⟨hok, hx, hT, hLe, hdt⟩ := hr
+    obtain ⟨hok, hx, hT, hLe, hdt, _, hu⟩ := hr
     refine ⟨hok, by rw [hT, hLe]; exact hR, fun h00 => absurd h00 h0, fun _ => ?_⟩
     refine ⟨_, by unfold gillespieStep; simp only [beq_iff_eq, h0, if_false]; rfl, hdt, ?_⟩
     rw [hT, hx]
-    exact hx'.2
+    exact ⟨hx'.2, hu⟩
 
 end Strengths
